@@ -5,7 +5,7 @@
 use std::collections::HashSet;
 use std::sync::Arc;
 
-use crate::engine::{hash_of, reach, run_forked, run_stepper, Cfg};
+use crate::engine::{hash_of, reach, run_forked, run_forked_keep, run_stepper, state_fingerprint, Cfg};
 use crate::ops::{Case, Op, N};
 use crate::props::{cfg_for, stepper_run};
 use crate::recog::{Recog, St};
@@ -1399,4 +1399,149 @@ pub fn c03_subs(run: RunFn) -> Vec<Sub> {
 #[allow(dead_code)]
 fn unused(_: &Cfg, _: fn(&Case, &Cfg) -> crate::engine::CaseResult) {
     let _ = run_stepper;
+}
+
+
+// ------------------------------------------------------------------------------------------
+// small-scope exploration: every sequence of operations up to a bounded length over a fixed
+// alphabet on a tiny screen, depth first from forked states, with every stepwise oracle of the
+// property at every node.  States (abstract snapshot + sparse representation) already
+// expanded with at least the same remaining depth are pruned.
+
+pub fn small_alphabet() -> Vec<Vec<Op>> {
+    vec![
+        vec![Op::Draw("a".into())],
+        vec![Op::Draw("\u{4e2d}".into())],
+        vec![Op::Draw("\u{301}".into())],
+        vec![Op::Draw("\u{200b}b".into())],
+        vec![Op::Cr],
+        vec![Op::Lf],
+        vec![Op::Bs],
+        vec![Op::Cuf(Some(1))],
+        vec![Op::Cub(None)],
+        vec![Op::Cup(None, None)],
+        vec![Op::Cup(Some(2), Some(3))],
+        vec![Op::Cuu(None)],
+        vec![Op::Cud(Some(2))],
+        vec![Op::Ich(Some(1))],
+        vec![Op::Dch(Some(1))],
+        vec![Op::Ech(None)],
+        vec![Op::El(Some(0), None)],
+        vec![Op::El(Some(1), None)],
+        vec![Op::Ed(Some(2), None)],
+        vec![Op::Ed(Some(0), None)],
+        vec![Op::Il(None)],
+        vec![Op::Dl(None)],
+        vec![Op::Ri],
+        vec![Op::Ind],
+        vec![Op::Sm(vec![4], false)],
+        vec![Op::Rm(vec![7], true)],
+        vec![Op::Sm(vec![6], true)],
+        vec![Op::Sm(vec![5], true)],
+        vec![Op::Rm(vec![5], true)],
+        vec![Op::Sm(vec![20], false)],
+        vec![Op::Stbm(Some(2), Some(3))],
+        vec![Op::Stbm(None, None)],
+        vec![Op::Sc],
+        vec![Op::Rc],
+        vec![Op::Resize(Some(2), Some(2))],
+        vec![Op::Resize(Some(3), Some(4))],
+        vec![Op::Tab],
+        vec![Op::Hts],
+        vec![Op::Tbc(Some(3))],
+        vec![Op::Display],
+        vec![Op::Sgr(vec![7])],
+        vec![Op::Sgr(vec![27, 31])],
+        vec![Op::So],
+        vec![Op::Ris],
+        vec![Op::Aln],
+        vec![Op::FeedStr("\x1b[".into())],
+        vec![Op::FeedStr("2;1H".into())],
+    ]
+}
+
+fn scope_dfs(
+    base: &memterm::screen::Screen,
+    prefix: &mut Vec<Op>,
+    depth_left: usize,
+    alpha: &[Vec<Op>],
+    cfg: &Cfg,
+    geom: (u32, u32),
+    seen: &mut std::collections::HashMap<u64, usize>,
+    acc: &mut Acc,
+) -> bool {
+    for a in alpha {
+        // the two parser fragments only make sense in order; a feed leaves parser state that a
+        // forked screen cannot carry, so they are only explored as the last step of a sequence
+        if a[0].is_feed() && depth_left > 1 {
+            continue;
+        }
+        let from = prefix.len();
+        prefix.extend(a.iter().cloned());
+        let case = Case { cols: geom.0, lines: geom.1, ops: prefix.clone() };
+        let (res, after) = run_forked_keep(base, &case, from, cfg);
+        let failed = acc.absorb(&case, res).is_some();
+        if failed {
+            prefix.truncate(from);
+            return false;
+        }
+        if depth_left > 1 {
+            let fp = state_fingerprint(&after);
+            let known = seen.get(&fp).cloned().unwrap_or(0);
+            if known < depth_left - 1 {
+                seen.insert(fp, depth_left - 1);
+                if !scope_dfs(&after, prefix, depth_left - 1, alpha, cfg, geom, seen, acc) {
+                    prefix.truncate(from);
+                    return false;
+                }
+            } else {
+                acc.stats.class("small-scope-pruned-state");
+            }
+        }
+        prefix.truncate(from);
+    }
+    true
+}
+
+pub fn small_scope_sub(id: &'static str, replay: RunFn) -> Sub {
+    let n = small_alphabet().len();
+    exh_sub("exh-small-scope", (n, n), replay, move |i, tier, acc| {
+        let alpha = small_alphabet();
+        let depth = if tier == Tier::Thorough { 6 } else { 5 };
+        let mut cfg = if id == "C01" {
+            let mut c = Cfg::stepper("C01");
+            c.model = false;
+            c.inv = false;
+            c.display = false;
+            c.e2e = false;
+            c
+        } else {
+            cfg_for(id)
+        };
+        // the lock-step shadows need whole cases; the stepwise oracles are what runs here
+        cfg.c10 = false;
+        cfg.c15 = false;
+        let geom = (3u32, 3u32);
+        let first = alpha[i].clone();
+        if first[0].is_feed() {
+            return;
+        }
+        let base = match reach(geom.0, geom.1, &[]) {
+            Some(b) => b,
+            None => return,
+        };
+        let mut prefix: Vec<Op> = Vec::new();
+        let case = Case { cols: geom.0, lines: geom.1, ops: first.clone() };
+        let (res, after) = run_forked_keep(&base, &case, 0, &cfg);
+        if acc.absorb(&case, res).is_some() {
+            return;
+        }
+        prefix.extend(first);
+        let mut seen = std::collections::HashMap::new();
+        scope_dfs(&after, &mut prefix, depth - 1, &alpha, &cfg, geom, &mut seen, acc);
+    })
+}
+
+pub fn c01_subs(run: RunFn) -> Vec<Sub> {
+    vec![small_scope_sub("C01", crate::runner::isolated(run))]
 }
